@@ -23,30 +23,34 @@ CONSTANTS UnitNames,      \* the alphabet (names of units, see Unit)
           ExportScripts
 
 VARIABLES hist,           \* the script so far (observation only; hidden from the fingerprint by View)
-          nsent
-mvars == <<d, hist, nsent>>
-View == <<d, nsent>>
+          nsent,
+          draft           \* the text being typed before the document is opened (a sequence of units)
+mvars == <<d, hist, nsent, draft>>
+View == <<d, nsent, draft>>
 
 Unit(n) == CASE n = "a" -> <<97>> [] n = "eacute" -> <<233>> [] n = "han" -> <<28450>>
              [] n = "emoji" -> <<128512>> [] n = "nl" -> <<NL>> [] n = "crlf" -> <<CR, NL>>
 Units == {Unit(n) : n \in UnitNames}
-RECURSIVE TextsOf(_)
-TextsOf(k) == IF k = 0 THEN {<<>>} ELSE LET T == TextsOf(k - 1) IN T \cup {t \o u : t \in T, u \in Units}
+RECURSIVE Flat(_)
+Flat(f) == IF f = <<>> THEN <<>> ELSE Head(f) \o Flat(Tail(f))
+\* every text is Flat(f) for exactly one sequence of units f (no unit is a lone "\r")
 Inserts == {<<>>} \cup Units \cup (IF RichInserts THEN {u \o v : u \in Units, v \in Units} ELSE {})
 Slacks == IF AllowSlack THEN {0, 2} ELSE {0}
 
-Init == d = Closed /\ hist = <<>> /\ nsent = 0
+Init == d = Closed /\ hist = <<>> /\ nsent = 0 /\ draft = <<>>
 CanEdit == d.opened /\ Len(d.outbox) < MaxBatch /\ nsent < MaxNotifs /\ (Lockstep => d.chan = <<>>)
-DoOpen == \E t \in TextsOf(MaxUnits) : Len(t) <= MaxLen /\ EditorOpen(t) /\ nsent' = 1
-                                       /\ hist' = <<[changes |-> <<>>, after |-> t]>>
+\* the initial text is typed unit by unit (so that the breadth-first search fans out), then opened
+DoType == ~d.opened /\ Len(draft) < MaxUnits /\ \E u \in Units : Len(Flat(draft)) + Len(u) <= MaxLen
+             /\ draft' = Append(draft, u) /\ UNCHANGED <<d, hist, nsent>>
+DoOpen == LET t == Flat(draft) IN EditorOpen(t) /\ nsent' = 1 /\ hist' = <<[changes |-> <<>>, after |-> t]>> /\ draft' = <<>>
 DoEdit == CanEdit /\ \E a \in 1..(Len(d.editor) + 1) : \E b \in a..(Len(d.editor) + 1) : \E new \in Inserts, sa \in Slacks, sb \in Slacks :
              /\ Len(d.editor) - (b - a) + Len(new) <= MaxLen
-             /\ EditorEdit(a, b, new, sa, sb) /\ UNCHANGED <<hist, nsent>>
-DoReplace == AllowReplace /\ CanEdit /\ \E t \in TextsOf(1) : EditorReplace(t) /\ UNCHANGED <<hist, nsent>>
+             /\ EditorEdit(a, b, new, sa, sb) /\ UNCHANGED <<hist, nsent, draft>>
+DoReplace == AllowReplace /\ CanEdit /\ \E t \in Units \cup {<<>>} : EditorReplace(t) /\ UNCHANGED <<hist, nsent, draft>>
 DoFlush == Len(d.chan) < MaxChan /\ EditorFlush /\ nsent' = nsent + 1
-           /\ hist' = Append(hist, [changes |-> d.outbox, after |-> d.editor])
-DoServer == ServerStep /\ UNCHANGED <<hist, nsent>>
-Next == DoOpen \/ DoEdit \/ DoReplace \/ DoFlush \/ DoServer
+           /\ hist' = Append(hist, [changes |-> d.outbox, after |-> d.editor]) /\ UNCHANGED draft
+DoServer == ServerStep /\ UNCHANGED <<hist, nsent, draft>>
+Next == DoType \/ DoOpen \/ DoEdit \/ DoReplace \/ DoFlush \/ DoServer
 Spec == Init /\ [][Next]_mvars
 
 \* ------------------------------------------------------------------ invariants
